@@ -57,6 +57,27 @@ class Fn:
         raise ValueError(f)
 
 
+def analytic_roots_inside(fn, lo, hi):
+    """does the function have a real root (or a sign-changing jump) in [lo, hi]?  (known analytically per family)"""
+    f, r = fn.fam, fn.r
+    pts = []
+    if f in ("linear", "endpoint", "cubic", "tanh", "expm", "jump", "tangent", "sqrtlike"):
+        pts = [r]
+    elif f == "poly3roots":
+        pts = [r, r - fn.width, r + fn.width]
+    elif f == "sin":
+        m0 = int(np.floor((lo - r) * fn.k / np.pi)) - 1
+        pts = [r + m * np.pi / fn.k for m in range(m0, m0 + int((hi - lo) * fn.k / np.pi) + 4)]
+    elif f == "bigexp":
+        pts = [r + np.log(2.0)]
+    elif f == "quintic":
+        pts = [r + 3.0 ** 0.2]
+    elif f == "positive":
+        pts = []
+    pad = 1e-6 * (1 + abs(hi) + abs(lo))
+    return any(lo - pad <= x <= hi + pad for x in pts)
+
+
 def gen_cases(tier, seed):
     rng = rng_for(1402, seed)
     cases = []
@@ -155,7 +176,7 @@ def _check_one(rec, feats, fn, a, b, x, ok, dt, tol_eff, prefix=""):
         if bool(ok):
             if not np.isfinite(xf) or not (lo - 4 * ulp <= xf <= hi + 4 * ulp):
                 rec.violate(prefix + "outside_bracket", "success_claimed_outside_the_bracket", feats, bracket=[float(a), float(b)], x=xf)
-            elif minabs > tol_eff and not endpoint_root and not _near_sign_change(fn, xq, tolx, dt, tol_eff):
+            elif minabs > tol_eff and not endpoint_root and not analytic_roots_inside(fn, lo, hi) and not _near_sign_change(fn, xq, tolx, dt, tol_eff):
                 rec.violate(prefix + "false_success", "success_claimed_without_root_or_sign_change", feats, x=xf, f_x=float(fn(np.asarray(xf, dtype=dt))), min_abs_f=minabs, tol=tol_eff)
     if bool(ok) and np.isfinite(xf):
         if not _near_sign_change(fn, xq, tolx, dt, tol_eff):
@@ -222,7 +243,8 @@ def _vector(spec):
         # are 'zero to within tol' without changing sign leave the verdict to the solver's discretion
         x1, ok1 = opt.brentsroot(fns[i], [A[i], B[i]], tol=tol)
         fa_, fb_, minabs_ = _analyse(fns[i], A[i], B[i], dt, tol_eff)
-        determined = (fa_ * fb_ < 0) or (minabs_ > tol_eff and fa_ != 0 and fb_ != 0)
+        lo_, hi_ = float(min(A[i], B[i])), float(max(A[i], B[i]))
+        determined = (fa_ * fb_ < 0) or (minabs_ > tol_eff and fa_ != 0 and fb_ != 0 and not analytic_roots_inside(fns[i], lo_, hi_))
         if not determined:
             rec.bump("agreement_undetermined")
         elif bool(ok1) != bool(oks[i]):
